@@ -1,14 +1,15 @@
 #!/usr/bin/env python3
 """Round 2 of independently written changes: /tmp/seed2/<PID>A/out/<k> (breaking) and /tmp/seed2/<PID>B/out/benign/<k>
 (behaviour-preserving).  Confirms each (suite passes with it; demo fails with / passes without for breaking ones),
-stores it under seeded/<PID>-r2-<k> or benign/<PID>-r2b<k>, and records which checks fire.
+stores it under seeded/<PID>-%s-<k> or benign/<PID>-%sb<k>, and records which checks fire.
 usage: round2.py C14A C14B ...   [--jobs N]"""
 import concurrent.futures, json, os, shutil, sys
 HERE = os.path.dirname(os.path.abspath(__file__))
 VERIF = os.path.dirname(HERE)
 sys.path.insert(0, HERE)
 import seed_eval
-ROOT = '/tmp/seed2'
+ROOT = os.environ.get("SEED_ROOT", "/tmp/seed3")
+TAG = os.environ.get("SEED_TAG", "r3")
 
 def main(argv):
     jobs = int(argv[argv.index('--jobs') + 1]) if '--jobs' in argv else 8
@@ -42,7 +43,7 @@ def main(argv):
             except Exception:
                 meta = {}
             if kind == 'A':
-                sid = '%s-r2-%s' % (pid, k)
+                sid = '%s-%s-%s' % (pid, TAG, k)
                 if not info.get('confirmed'):
                     print('%-10s NOT CONFIRMED %s' % (sid, {k_: v for k_, v in info.items() if k_ in ('suite_with_change', 'demo_with_change', 'demo_without_change', 'error')}))
                     continue
@@ -51,7 +52,7 @@ def main(argv):
                 shutil.copy(os.path.join(d, 'patch.diff'), dst)
                 shutil.copy(os.path.join(d, 'demo.rs'), dst)
                 flat = [x for v in delta.values() for x in v]
-                m = {'id': sid, 'round': 2, 'breaks_property': pid, 'summary': meta.get('summary'), 'files': meta.get('files'), 'mechanism': meta.get('mechanism'),
+                m = {'id': sid, 'round': int(TAG[1:]) if TAG[1:].isdigit() else TAG, 'breaks_property': pid, 'summary': meta.get('summary'), 'files': meta.get('files'), 'mechanism': meta.get('mechanism'),
                      'needs_to_manifest': meta.get('needs'), 'why_existing_tests_pass': meta.get('why_tests_pass'),
                      'author': 'independent sub-agent given only the property text and a scratch worktree of /repo (nothing from /verif)', 'author_commands': meta.get('commands'),
                      'confirmed_here': {'how': 'tools/seed_eval.py confirm (scratch copy outside /repo and /verif): suite with the change, demo with and without it',
@@ -62,14 +63,14 @@ def main(argv):
                 json.dump(m, open(os.path.join(dst, 'meta.json'), 'w'), indent=1)
                 print('%-10s %s %s' % (sid, 'detected' if delta else 'MISSED  ', '; '.join(flat)[:200]))
             else:
-                bid = '%s-r2b%s' % (pid, k)
+                bid = '%s-%sb%s' % (pid, TAG, k)
                 if not str(info).startswith('pass'):
                     print('%-10s SUITE FAILS with the refactor: %s' % (bid, str(info)[:200]))
                     continue
                 dst = os.path.join(VERIF, 'benign', bid)
                 os.makedirs(dst, exist_ok=True)
                 shutil.copy(os.path.join(d, 'patch.diff'), dst)
-                m = {'id': bid, 'round': 2, 'anchored_in_property': pid, 'kind': meta.get('kind'), 'summary': meta.get('summary'), 'files': meta.get('files'), 'why_equivalent': meta.get('why_equivalent'),
+                m = {'id': bid, 'round': int(TAG[1:]) if TAG[1:].isdigit() else TAG, 'anchored_in_property': pid, 'kind': meta.get('kind'), 'summary': meta.get('summary'), 'files': meta.get('files'), 'why_equivalent': meta.get('why_equivalent'),
                      'author': 'independent sub-agent given only the property text and a scratch worktree', 'suite_with_change': info, 'new_violation_keys': delta, 'silent': not delta,
                      'first_run_before_any_rule_change': {'silent': not delta, 'keys': delta}}
                 json.dump(m, open(os.path.join(dst, 'meta.json'), 'w'), indent=1)
